@@ -652,6 +652,102 @@ func init() {
 				r.Check(okB, "document-text:"+doc.format, "a body paragraph is missing from (or repeated in) the Markdown", Bs(doc.path))
 			}
 		}
+		// ---- presentations and workbooks: every table of a slide / sheet is its own pipe table
+		nDecks := 15
+		if thorough {
+			nDecks = 200
+		}
+		for di := 0; di < nDecks; di++ {
+			g := &c16gen{rng: rng}
+			mkGrid := func() [][]string {
+				nr, nc := rng.Range(1, 4), rng.Range(1, 4)
+				grid := make([][]string, nr)
+				for i := range grid {
+					for j := 0; j < nc; j++ {
+						g.n++
+						cell := fmt.Sprintf("q%dz", g.n)
+						if rng.Chance(1, 6) {
+							cell = ""
+						}
+						grid[i] = append(grid[i], cell)
+					}
+				}
+				return grid
+			}
+			var slides [][]string
+			var slideTables [][][][]string
+			var members []zipMember
+			nsl := rng.Range(1, 3)
+			files := make([]string, nsl)
+			for si := 0; si < nsl; si++ {
+				files[si] = fmt.Sprintf("ppt/slides/slide%d.xml", si+1)
+				slides = append(slides, []string{fmt.Sprintf("slide text qs%dz", si)})
+				var tbs [][][]string
+				for k := rng.Range(0, 3); k > 0; k-- {
+					tbs = append(tbs, mkGrid())
+				}
+				slideTables = append(slideTables, tbs)
+			}
+			members = mkPPTX(slides, files)
+			for i := range members {
+				for si := range files {
+					if members[i].Name == files[si] {
+						members[i].Data = []byte(pptxSlideXMLTables(slides[si], slideTables[si]))
+					}
+				}
+			}
+			path := tmpFile(r, ".pptx", writeZip(members))
+			md, _, err := tabula.Open(path).ToMarkdown()
+			var wantTables [][][]string
+			for _, tbs := range slideTables {
+				wantTables = append(wantTables, tbs...)
+			}
+			okP, whyP := err == nil, ""
+			if err != nil {
+				whyP = err.Error()
+			} else {
+				var blocks []string
+				cur := ""
+				for _, ln := range strings.Split(md, "\n") {
+					if strings.HasPrefix(strings.TrimSpace(ln), "|") {
+						cur += ln + "\n"
+					} else if cur != "" {
+						blocks = append(blocks, cur)
+						cur = ""
+					}
+				}
+				if cur != "" {
+					blocks = append(blocks, cur)
+				}
+				if len(blocks) != len(wantTables) {
+					okP, whyP = false, fmt.Sprintf("%d pipe tables in the Markdown, the slides hold %d tables", len(blocks), len(wantTables))
+				}
+				for bi := 0; okP && bi < len(blocks); bi++ {
+					grid, ok := gfmTable(blocks[bi])
+					want := wantTables[bi]
+					if !ok || len(grid) != len(want) {
+						okP, whyP = false, fmt.Sprintf("table %d reads back with %d rows (readable %v), it has %d", bi, len(grid), ok, len(want))
+						break
+					}
+					for i := range want {
+						for j := range want[i] {
+							if j >= len(grid[i]) || strings.TrimSpace(grid[i][j]) != want[i][j] {
+								okP, whyP = false, fmt.Sprintf("table %d cell (%d,%d) does not read back as %q", bi, i, j, want[i][j])
+							}
+						}
+						if len(grid[i]) != len(want[i]) {
+							okP, whyP = false, fmt.Sprintf("table %d row %d has %d cells, the table has %d columns", bi, i, len(grid[i]), len(want[i]))
+						}
+					}
+				}
+				for si := range slides {
+					if strings.Count(md, fmt.Sprintf("qs%dz", si)) != 1 {
+						okP, whyP = false, "a slide's text is missing from (or repeated in) the Markdown"
+					}
+				}
+			}
+			r.Check(okP, "document-tables:pptx", whyP, Bs(path))
+		}
 		// ---- heading levels
 		for lvl := -1; lvl <= 9; lvl++ {
 			for off := -2; off <= 7; off++ {
